@@ -98,19 +98,17 @@ impl Executor for SeqScan {
                 .ok_or(RuntimeError::CursorUninitialized)?
                 .get_tree();
 
-            let maybe_row = tree
-                .get_row_at(next_pos, &self.output_schema, &snapshot)?
-                .filter(|r| {
-                    self.evaluate_predicate(r)
-                        .expect("Predicate evaluation failed")
-                });
+            let Some(row) = tree.get_row_at(next_pos, &self.output_schema, &snapshot)? else {
+                continue;
+            };
 
-            if maybe_row.is_none() {
+            // A predicate that cannot be evaluated is an error of the statement, not a panic
+            if !self.evaluate_predicate(&row)? {
                 continue;
             }
 
             self.stats.rows_produced += 1;
-            return Ok(Some(maybe_row.unwrap()));
+            return Ok(Some(row));
         }
     }
 
